@@ -111,7 +111,14 @@ func ParseTime(v string) (Time, error) {
 	if err != nil {
 		return Time{}, err
 	}
+	t = t.Round(DatePrecision)
+	// time.Parse is more lenient than RFC 3339 (it lets the offset "+24:60" through) and rounding can leave
+	// year 9999: Format would then print "+25:00" or a five digits year, which time.Parse refuses, so a log
+	// holding such a timestamp could never be read back.
+	if _, offset := t.Zone(); t.Year() > 9999 || offset <= -25*60*60 || offset >= 25*60*60 {
+		return Time{}, errors.New("timestamp out of range")
+	}
 	return Time{
-		Time: t.Round(DatePrecision),
+		Time: t,
 	}, nil
 }
